@@ -247,6 +247,45 @@ proof fn lemma_constant_key_stays_constant(n: RSV, k: RSV)
 //@end
 }
 
+// =========================== mapping_offset.rs ===========================
+// R-SELFREF target: the traversal combinator applied to insert_mapping_offset itself
+pub uninterp spec fn tx_imo(v: RSV) -> RSV;
+impl RSV {
+    #[verifier::external_body]
+    pub fn tx_exec_imo(&self) -> (r: RuntimeBoxedVal) ensures *r == tx_imo(*self) { unimplemented!() }
+}
+// A-CALLEE: `usize::from(&KnownWord)` (the `.into()` of the offset): an uninterpreted function of the word — NO claim about which
+// usize comes out (it keeps the low 64 bits; see unit memory), only that the member offset is computed from THAT constant.
+pub uninterp spec fn kw_as_usize(w: KnownWord) -> usize;
+#[verifier::external_body]
+fn vx_kw_into_usize(w: &KnownWord) -> (r: usize) ensures r == kw_as_usize(*w) { unimplemented!() }
+
+//@extract file=src/tc/lift/mapping_offset.rs path="impl Lift for MappingOffset|fn run|fn insert_mapping_offset" props=C05,C06 id=mapping_offset::insert_mapping_offset
+//@ret r
+// R-SELFREF: the traversal applied to the function itself; R-CALL: `value.into()` (&KnownWord -> usize) -> the uninterpreted conversion
+//@rw R-SELFREF count=2
+//@old
+.transform_data(insert_mapping_offset)
+//@new
+.tx_exec_imo()
+//@rw R-CALL
+//@old
+value.into()
+//@new
+vx_kw_into_usize(value)
+//@spec
+    ensures
+        r is Some ==> (*data matches RSVD::Add { left, right }
+            && ((left.dt() is MappingIndex && right.dt() is KnownData) || (left.dt() is KnownData && right.dt() is MappingIndex))),   //@ob C05.guard.insert_mapping_offset.only_on_mapping_access_plus_constant
+        r matches Some(d2) ==> d2 is MappingIndex,                                                 //@ob C05.guard.insert_mapping_offset.stays_a_mapping_access
+        *data matches RSVD::Add { left, right } ==> left.dt() matches RSVD::MappingIndex { key, slot, projection } ==> right.dt() matches RSVD::KnownData { value } ==>
+            (r matches Some(RSVD::MappingIndex { key: k2, slot: s2, projection: p2 })
+                && *k2 == tx_imo(*key) && *s2 == tx_imo(*slot) && p2 == Some(kw_as_usize(value))),   //@ob C05.guard.insert_mapping_offset.same_slot_and_key_offset_from_the_constant C06.guard.insert_mapping_offset.slot_carried
+        *data matches RSVD::Add { left, right } ==> left.dt() matches RSVD::KnownData { value } ==> right.dt() matches RSVD::MappingIndex { key, slot, projection } ==>
+            (r matches Some(RSVD::MappingIndex { key: k2, slot: s2, projection: p2 })
+                && *k2 == tx_imo(*key) && *s2 == tx_imo(*slot) && p2 == Some(kw_as_usize(value))),   //@ob C05.guard.insert_mapping_offset.same_slot_and_key_offset_from_the_constant C06.guard.insert_mapping_offset.slot_carried
+//@end
+
 // =========================== tc/mod.rs ===========================
 //@extract file=src/tc/mod.rs path="impl TypeChecker|fn unify|fn is_constant_storage_slot"
 //@ret r
